@@ -47,6 +47,9 @@ type c14Case struct {
 }
 
 type c14Obs struct {
+	Accept uint32
+	Data   []byte
+	Denied bool
 	Wire  []byte
 	Xid   uint32
 	NoRep bool // HandleCall returned an error: no reply at all (allowed only for timeouts)
@@ -70,9 +73,13 @@ func c14World(state string) (*World, map[string]uint64) {
 		h, _ := w.handleFor(p, rootCred())
 		hs[p] = h
 	}
-	w.fs.logOn = false
-	w.fs.Remove("/gone")
-	w.fs.logOn = true
+	w.cfg.ReadOnly = false
+	if state == "readonly" {
+		// remove through the backend before the server exists is not possible here; a read-only server cannot REMOVE:
+		// keep /gone (its handle is then simply a live file handle)
+	} else {
+		w.nfs(12, rootCred(), argDirop(w.root, "gone")) // the handle for /gone stays in the table, the file is gone
+	}
 	hs["stale"] = 987654
 	if state == "ratelimit" {
 		rl := absnfs.DefaultRateLimiterConfig()
@@ -85,14 +92,23 @@ func c14World(state string) (*World, map[string]uint64) {
 func runC14(c c14Case) []c14Obs {
 	w, _ := c14World(c.State)
 	defer w.Close()
+	if c.State == "drain" || c.State == "ratelimit" {
+		w.noTrace = true // these states answer outside the sequential server model (busy model / limiter)
+	}
 	out := make([]c14Obs, len(c.Calls))
 	callOne := func(i int, q c14Call) {
 		cred := q.Cred
 		if cred.Flavor == 0 && cred.Raw == nil {
 			cred = rootCred()
 		}
-		rep := w.srv.Call(q.Prog, q.Vers, q.Proc, cred, q.Args)
-		out[i] = c14Obs{Wire: rep.Wire, Xid: rep.Xid, NoRep: rep.Err != nil}
+		var rep Reply
+		if c.State == "drain" || c.State == "ratelimit" {
+			rep = w.srv.Call(q.Prog, q.Vers, q.Proc, cred, q.Args)
+		} else {
+			w.clockNs += int64(w.step)
+			rep = w.callRaw(q.Prog, q.Vers, q.Proc, cred, q.Args) // traced: the Lean server model replays it
+		}
+		out[i] = c14Obs{Wire: rep.Wire, Xid: rep.Xid, NoRep: rep.Err != nil, Accept: rep.AcceptStatus, Data: rep.Data, Denied: rep.Status != 0}
 	}
 	if c.State != "drain" {
 		for i, q := range c.Calls {
@@ -132,6 +148,22 @@ func runC14(c c14Case) []c14Obs {
 }
 
 func judgeC14(r *Result, cases []c14Case, obs [][]c14Obs) {
+	// drain answers against the Lean `busy` model
+	for i, c := range cases {
+		if c.State != "drain" {
+			continue
+		}
+		var ops, want []string
+		for j, q := range c.Calls {
+			o := obs[i][j]
+			if o.NoRep || o.Denied {
+				continue
+			}
+			ops = append(ops, fmt.Sprintf("srv busy %d %d %d %d %s", q.Prog, q.Vers, q.Proc, o.Accept, hx(o.Data)))
+			want = append(want, "match")
+		}
+		compareWithModel(r, "busy", []Case{{Ops: ops}}, [][]string{want}, nil)
+	}
 	var mcases []Case
 	for i, c := range cases {
 		var ops []string
@@ -251,6 +283,11 @@ func c14ValidArgs(hs map[string]uint64, rng *rand.Rand) map[[2]uint32][][]byte {
 }
 
 func checkC14(r *Result, rng *rand.Rand, thorough bool) {
+	traces, doneTraces := collectTraces(10)
+	defer func() {
+		doneTraces()
+		compareSrv(r, "srv", *traces)
+	}()
 	r.Rule = "every NFSv3 procedure 0..21 (+22, 99), MOUNT 0..5 (+6), wrong versions, unknown program; arguments: well-formed over handles of a directory, file, symlink, removed file and a stale value, every truncation of them (quick: every 4th byte and +-1), random garbage; states: normal, read-only, rate-limited, policy drain; AUTH_SYS root/user, AUTH_NONE and unknown flavors; each reply decoded by the Lean RFC decoders"
 	var cases []c14Case
 	for _, state := range []string{"normal", "readonly", "ratelimit", "drain"} {
@@ -258,6 +295,7 @@ func checkC14(r *Result, rng *rand.Rand, thorough bool) {
 		w.Close()
 		valid := c14ValidArgs(hs, rng)
 		c := c14Case{State: state}
+		var tail []c14Call // calls with credentials the sequential model does not follow: sent last
 		step := 4
 		if thorough {
 			step = 1
@@ -286,10 +324,11 @@ func checkC14(r *Result, rng *rand.Rand, thorough bool) {
 			}
 			// credentials
 			c.Calls = append(c.Calls, c14Call{Prog: prog, Vers: 3, Proc: proc, Args: sets[0], Cred: Cred{Flavor: 1, UID: 1000, GID: 1000}},
-				c14Call{Prog: prog, Vers: 3, Proc: proc, Args: sets[0], Cred: Cred{Flavor: 0, Raw: []byte{}}},
-				c14Call{Prog: prog, Vers: 3, Proc: proc, Args: sets[0], Cred: Cred{Flavor: 6, Raw: []byte{1, 2, 3, 4}}},
+				c14Call{Prog: prog, Vers: 3, Proc: proc, Args: sets[0], Cred: Cred{Flavor: 0, Raw: []byte{}}})
+			tail = append(tail, c14Call{Prog: prog, Vers: 3, Proc: proc, Args: sets[0], Cred: Cred{Flavor: 6, Raw: []byte{1, 2, 3, 4}}},
 				c14Call{Prog: prog, Vers: 3, Proc: proc, Args: sets[0], Cred: Cred{Flavor: 1, Raw: []byte{1, 2, 3}}})
 		}
+
 		// versions and programs
 		c.Calls = append(c.Calls, c14Call{Prog: progNFS, Vers: 2, Proc: 1, Args: fh(1)}, c14Call{Prog: progNFS, Vers: 4, Proc: 1, Args: fh(1)},
 			c14Call{Prog: progMount, Vers: 1, Proc: 1, Args: xdrOpaque([]byte("/"))}, c14Call{Prog: progMount, Vers: 2, Proc: 1, Args: xdrOpaque([]byte("/"))},
@@ -304,6 +343,7 @@ func checkC14(r *Result, rng *rand.Rand, thorough bool) {
 					c14Call{Prog: progMount, Vers: 3, Proc: 1, Args: xdrOpaque([]byte("/"))})
 			}
 		}
+		c.Calls = append(c.Calls, tail...)
 		cases = append(cases, c)
 	}
 	var obs [][]c14Obs
